@@ -52,6 +52,10 @@ class NT3(NamedTuple):
     x: int
 
 
+class NT0(NamedTuple):     # a NamedTuple without fields: `_asdict()` is {} (equal to the `__annotations__` of every class that has none of its own)
+    pass
+
+
 @dataclasses.dataclass
 class DC:                  # a dataclass with the same field names as NT1
     a: int = 0
@@ -66,7 +70,7 @@ CLASSES = [object, type, abc.ABCMeta, NoneType, bool, int, float, str, bytes, tu
            collections.abc.Sequence, collections.abc.Iterable, collections.abc.Collection, collections.abc.Container,
            collections.abc.Set, collections.abc.MutableSet, collections.abc.MutableSequence, collections.abc.Mapping,
            collections.abc.MutableMapping, collections.abc.Iterator, GeneratorType, ListIterator,
-           P, C1, C2, G, U, MI, L, TS, Pdup, NT1, NT2, NT3, DC, Text, Counter, collections.Counter, map, filter, SelfA, SelfB, Loc, Recv]
+           P, C1, C2, G, U, MI, L, TS, Pdup, NT1, NT2, NT3, DC, Text, Counter, collections.Counter, map, filter, SelfA, SelfB, Loc, Recv, NT0]
 IDX = {c: i for i, c in enumerate(CLASSES)}
 NAMES = {}
 
@@ -247,9 +251,9 @@ def build_ann(t):
                 return functools.reduce(operator.or_, ms)
             except TypeError:
                 return Union[tuple(ms)]
-        if t[1] == 'optional' and len(ms) == 2:
-            return Optional[ms[0]] if ms[1] is NoneType else Optional[ms[1]] if ms[0] is NoneType else Union[tuple(ms)]
-        return Union[tuple(ms)]
+        if t[1] == 'optional' and len(ms) == 2 and ms[1] is NoneType:
+            return Optional[ms[0]]
+        return Union[tuple(ms)]       # (Union[None, X] is an Optional whose arguments stay in that order: the term must be rebuilt as it was reflected)
     if k == 'typeof':
         a = build_ann(t[2]); return Type[a] if t[1] == 'typing' else type[a]
     if k == 'seq':
@@ -470,6 +474,7 @@ def inst_of(r, c):
     if c is bytes: return lit(r.choice([b'x', b'', b'ab']))
     if c in (NT1, NT2): return ["ntup", IDX[c], [nid('a'), nid('b')], [lit(r.choice([1, 2])), lit(r.choice(['a', 'b']))]]
     if c is NT3: return ["ntup", IDX[c], [nid('x')], [lit(1)]]
+    if c is NT0: return ["ntup", IDX[c], [], []]
     if c is TS: return ["tup", IDX[TS], [lit(1)]]
     if c is L: return ["coll", IDX[L], [lit(1)]]
     if c is tuple: return ["tup", IDX[tuple], []]
